@@ -36,6 +36,8 @@ def bounds(tier):
     q = tier == "quick"
     return {"values": f"multisets of 1..{3 if q else 4} items over {ALPHA}, plus sub-multisets of {SPREAD}", "k": "1..3" if q else "1..4 (k=4 for copies/constraints only)",
             "copies": "1, 2, every per-item vector over {0,1,2}", "weights": "{1,2,3}^k", "constraints": "eq0 / le_last / ge0 for every c in 0..total+1",
+            "fractional weights": "every weight vector over {0.25, 0.5, 1}^k, k=2..3, three objectives (weight sums below the number of bins included)",
+            "two constraints": f"multisets of 2..{3 if q else 4} items over (1,2,3), k=2..3: smallest>=c1 and largest<=c2, largest<=c2 and smallest==c1, for every c1<=c2",
             "four bins": f"multisets of 3..{4 if q else 5} items over (1,2,3,5,6), k=4, five objectives unweighted + 4 unequal weight vectors x 3 objectives",
             "gap": f"multisets of 4..{5 if q else 6} items over (1,5,7,9), k=3, weights (1,3,4),(2,3,5),(1,2,7),(3,4,5) x difference / 2-largest / 2-smallest",
             "statuses": "all 12 members of mip.OptimizationStatus"}
@@ -65,6 +67,10 @@ def tasks(tier):
         ts.append(("status", ch, (2,)))
     for ch in spaces.chunked([v for v in vs if len(v) <= 3][:20], 4):
         ts.append(("dict", ch, (2, 3)))
+    for ch in spaces.chunked([v for v in vs if 2 <= len(v) <= 3][:30 if q else 80], 3):
+        ts.append(("fracw", ch, (2, 3)))
+    for ch in spaces.chunked([v for v in spaces.multisets((1, 2, 3), 2, 3 if q else 4)], 2):
+        ts.append(("two-constraints", ch, (2, 3)))
     # four bins: the middle bins are ordered only by the chain of consecutive constraints; multi-bin objectives and unequal weights
     for ch in spaces.chunked([v for v in spaces.multisets((1, 2, 3, 5, 6), 3, 4 if q else 5)], 3):
         ts.append(("four", ch, (4,)))
@@ -118,7 +124,7 @@ def opt_counts(values, copies, k, weights, cons, spec):
     rows = [_compositions(c, k) for c in copies]
     for mat in product(*rows):
         sums = [sum(mat[i][j] * values[i] for i in range(len(values))) for j in range(k)]
-        ws = [Fraction(sums[j], w[j]) for j in range(k)]
+        ws = [Fraction(sums[j]) / Fraction(w[j]) for j in range(k)]
         srt = sorted(ws)
         if pred(srt):
             v = _obj(spec, srt)
@@ -157,7 +163,7 @@ def _problems(obs, values, cvec, k, weights, cons, spec, want):
     if real != list(sums):
         out.append(("sum_mismatch", real, sums))
     w = list(weights) if weights is not None else [1] * k
-    ws = [Fraction(real[j], w[j]) for j in range(k)]
+    ws = [Fraction(real[j]) / Fraction(w[j]) for j in range(k)]
     equal_w = len(set(w)) == 1
     if equal_w and any(real[j] > real[j + 1] for j in range(k - 1)):
         out.append(("sums_not_ascending", "non-decreasing sums", real))
@@ -259,6 +265,23 @@ def run_task(task):
                         _judge(acc, values, k, "MaximizeSmallestSum", weights=w, cons=["le_last", c], nontrivial=True)
                 _judge(acc, values, k, "MinimizeDifference", copies=2, weights=tuple(range(1, k + 1)), nontrivial=True)
                 _judge(acc, values, k, "MinimizeDifference", cons=[["ge0", 1], ["le_last", total]], nontrivial=True)
+            elif scope == "fracw":
+                for w in product((0.5, 1, 0.25), repeat=k):
+                    if len(set(w)) == 1 and w[0] == 1:
+                        continue
+                    for spec in ("MaximizeSmallestSum", "MinimizeDifference", "MinimizeLargestSum"):
+                        wq = tuple(Fraction(x) for x in w)
+                        v = _judge(acc, values, k, spec, weights=w, nontrivial=True)
+                        if len(set(w)) == 1 and v is not None:
+                            vw = opt_counts(values, [1] * n, k, None, None, spec)[0]
+                            if v * Fraction(w[0]) != vw:
+                                acc.violation("ilp", f"obj={spec};weights={list(w)}", f"{list(values)};k={k}", "equal_weights_change_result", vw, v * Fraction(w[0]),
+                                              {"algo": "ilp", "items": list(values), "k": k, "kw": {"objective": spec, "weights": list(w)}})
+            elif scope == "two-constraints":
+                for c1 in range(0, total + 1):
+                    for c2 in range(c1, total + 2):
+                        _judge(acc, values, k, "MinimizeDifference", cons=[["ge0", c1], ["le_last", c2]], nontrivial=True)
+                        _judge(acc, values, k, "MaximizeSmallestSum", cons=[["le_last", c2], ["eq0", c1]], nontrivial=True)
             elif scope == "four":
                 for spec in OBJ5:
                     _judge(acc, values, k, spec, nontrivial=True)
